@@ -41,7 +41,8 @@ RULE = ("random TFIM graphs (2..6 spins; chain with optional ring/chord/repeated
         "Further lock-step families with the same oracle: `lockstep-hb` heat-bath sweeps on BOTH samplers (set_enable_heatbath on the "
         "Ising sampler, set_do_heatbath by hand on its conversion; initial cutoff 1..3 so the cutoff has to grow after the conversion; "
         "conversion before any step and after k steps) and `lockstep-g0` transverse field exactly 0 with |J| >= 1, beta 2 or 4 "
-        "(operators present). Small energy units: J, Gamma, h scaled exactly by 2^-56 / 2^-60 in `convert` (matrix-level: every bond x every "
+        "(operators present). `lockstep-long`: 8 spins at beta 180 (quick) / 300, 500 (thorough), cutoff 1..3, conversion before the first step and "
+        "after 30 steps, Metropolis and heat-bath on both, 40 lock-step steps with n of several thousand. Small energy units: J, Gamma, h scaled exactly by 2^-56 / 2^-60 in `convert` (matrix-level: every bond x every "
         "in/out pattern of QmcIsingGraph::hamiltonian vs Interaction::at, offsets, flags; the edge tables are flagged constant-along-diagonal "
         "by the library's absolute tolerance there) and `lockstep-small` (beta scaled by the inverse factor; stepping through "
         "single_diagonal_step + single_cluster_step vs diagonal_update + cluster_update + flip_free_bits). Non-trivial = every convert case, every lockstep case with steps; distinct = distinct case line.")
